@@ -831,6 +831,14 @@ def main():
         write_if_changed(os.path.join(GEN, "KernelsGen.lean"),
                          "import CatiiModel.Kernels\n-- translation FAILED: %s\n" % str(e).replace("\n", " ")[:300])
         status = 3
+    try:
+        import translate_walk
+        write_if_changed(os.path.join(GEN, "WalkGen.lean"), translate_walk.generate(rd("ccubes.py")))
+    except (translate_walk.Unsupported, SyntaxError, KeyError, IndexError, AttributeError, StopIteration) as e:
+        print("translate: ccube._walk outside the translatable subset: %s" % e, file=sys.stderr)
+        write_if_changed(os.path.join(GEN, "WalkGen.lean"),
+                         "import CatiiModel.Cube\n-- translation FAILED: %s\n" % str(e).replace("\n", " ")[:300])
+        status = 3
     return status
 
 
